@@ -493,17 +493,15 @@ def run(ctx, res):
                     else:
                         res.fail("C12 zoneinfo provider (dateutil tzical): differs from the RFC onset rule far from "
                                  "every onset", inp, observed=g, expected=want)
-            if not whole_err and r["prov"]["pytz"][:1] != ["err"]:
-                pass
         a, b = r["prov"]["pytz"], r["prov"]["zoneinfo"]
         if a[:1] != ["err"] and b[:1] != ["err"]:
             for k, s in enumerate(r["ts"]):
                 if first and s >= first[0]:
                     stats["agree"][0] += 1
-                    stats["agree"][1] += int(a[k][:2] == b[k][:2])
+                    stats["agree"][1] += int(a[k][:1] == b[k][:1])
     res.notes.append("samples at/after the first onset where the provider's (offset, name if given, dst=0 in standard "
                      "time) equals the RFC rule: pytz %d/%d, zoneinfo %d/%d (zoneinfo, further than 2*max|offset| from "
-                     "every onset: %d/%d); pytz and zoneinfo give the same (offset, dst) on %d/%d samples -- provider "
+                     "every onset: %d/%d); pytz and zoneinfo give the same utcoffset on %d/%d samples -- provider "
                      "agreement is differential testing only, dateutil's tzical has no model"
                      % (stats["pytz"][1], stats["pytz"][0], stats["zoneinfo"][1], stats["zoneinfo"][0],
                         stats["zoneinfo_far"][1], stats["zoneinfo_far"][0], stats["agree"][1], stats["agree"][0]))
